@@ -1,4 +1,6 @@
 mod util;
+mod arr;
+mod c01;
 mod c08;
 mod c09;
 mod c10;
@@ -8,6 +10,7 @@ use util::*;
 
 #[derive(Default)]
 struct Ctx {
+    arr: Option<arr::ArrCtx>,
     c08: Option<c08::StoreCtx>,
 }
 
@@ -16,6 +19,19 @@ fn exec_line(ctx: &mut Ctx, line: &str) -> String {
     let prop = toks.next().unwrap_or("");
     let second = toks.next().unwrap_or("");
     match prop {
+        "c01" => {
+            let (v, m) = parse_line(line);
+            if second == "cfg" {
+                ctx.arr = None;
+                match util::guarded_res(|| arr::open_ctx(&m)) {
+                    Ok(c) => { ctx.arr = Some(c); "ok".into() }
+                    Err(e) => format!("err-open {}", e.replace(' ', "_")),
+                }
+            } else {
+                let verb = v.get(2).cloned().unwrap_or_default();
+                match ctx.arr.as_mut() { Some(c) => arr::exec_op(c, &verb, &m), None => "skip".into() }
+            }
+        }
         "c08" => {
             if second == "cfg" {
                 let (_, m) = parse_line(line);
@@ -45,6 +61,7 @@ fn main() {
         "run" => {
             let prop = a.rest.get(0).cloned().unwrap_or_default();
             match prop.as_str() {
+                "c01" => c01::generate(&a.tier, a.seed),
                 "c08" => c08::generate(&a.tier, a.seed),
                 "c09" => c09::generate(&a.tier, a.seed),
                 "c10" => c10::generate(&a.tier, a.seed),
